@@ -189,10 +189,17 @@ def check_quoted(case) -> Outcome:
     import unicodedata
 
     def exotic(n):
+        # (open finding F18, narrowed in round 7 to what still fails: a name that is a valid identifier - hence not
+        # aliased - which CPython normalises to another spelling; names that need an alias, marks and controls work)
+        return n.isidentifier() and unicodedata.normalize("NFKC", n) != n
+
+    def unstable(n):
         return unicodedata.normalize("NFKC", n) != n or any(unicodedata.category(ch)[0] in "MC" for ch in n)
 
     ex = exotic(n1) or (form != "plain" and exotic(n2))
     if ex:
+        out.label("name:nfkc-unstable-identifier")
+    elif unstable(n1) or (form != "plain" and unstable(n2)):
         out.label("name:nfkc-unstable-or-mark-or-control")
     feat = dict(form=form, trailing_backslash="trailing-backslash" in cls, quote_char="quote-char" in cls, special=special, exotic=ex)
     df = pd.DataFrame({n1: [1.0, 2.0, 4.0], "zz": [10.0, 20.0, 30.0]})
@@ -248,7 +255,7 @@ def _collide(n1, n2):
 
 
 def gen_quoted():
-    nm = st.one_of(names(), names(), st.sampled_from(["a b", "a+b", "a", "ab", "a b c", "x", "max", "a'b", 'q"r', "a\\b", "end\\", "1z", "a:b", "é", "I", "zz ", "l1\r\nl2", "t\tb", "cr\rx"]))
+    nm = st.one_of(names(), names(), st.sampled_from(["a b", "a+b", "a", "ab", "a b c", "x", "max", "a'b", 'q"r', "a\\b", "end\\", "1z", "a:b", "é", "I", "zz ", "l1\r\nl2", "t\tb", "cr\rx", "\uff58+1", "\ufb01 x", "\xb5 m", "1\xaa", "a \u0301b"]))
     return st.builds(lambda a, b, f: {"n1": a, "n2": b, "form": f}, nm, nm, st.sampled_from(["plain", "plain", "I", "brace-sum", "call2", "mixed"])).filter(
         lambda c: c["n1"] != "zz" and c["n2"] != "zz" and (c["form"] == "plain" or c["n1"] != c["n2"])
     )
